@@ -9,7 +9,8 @@ THEOREMS = ["C07_multiples_of_147", "C07_tempo_closed_form", "C07_tempo_step_le_
             "C07_attenuation_antitone", "C07_pitch_tables_sound", "C07_short_note_counterexample",
             "C07_tick_delivery", "C07_update_ticks", "C07_key_frame_partial", "C07_key_frame_start", "C07_pitch_value_partial",
             "C07_tick_delivery_all_passes", "C07_log_by_updates", "C07_schedule_fm_partial",
-            "C07_tempo_table_partial", "C07_schedule_fm_tempo_partial", "C07_slur_update_partial", "C07_psg_update_partial"]
+            "C07_tempo_table_partial", "C07_schedule_fm_tempo_partial", "C07_slur_update_partial", "C07_psg_update_partial",
+            "C07_list_machine_times", "C07_export_extent_noloop_partial"]
 LEVEL = "proof"
 STREAM = "vgm.bytes"
 CHUNK = 25
